@@ -72,6 +72,10 @@ func zzhOpts() *ExportOptions {
 		o.EmphasisMarker = "_"
 		o.BulletListMarker = "*"
 	}
+	if zzvBool() {
+		o.WrapLongLines = true
+		o.MaxLineLength = 3
+	}
 	return o
 }
 
@@ -151,4 +155,40 @@ func ZZH_C20_BodyOrder() {
 	zzvAssert(got == want, "body: the export lists the elements once each, in body order")
 	zzvKnownEnd("KF-C20-tables-after-paragraphs")
 	zzvReach("body")
+}
+
+// The kind of block a paragraph becomes follows its style first: a heading stays a heading, a
+// quote a quote, code code - also when the paragraph is numbered; only unstyled numbered
+// paragraphs are list items.
+func ZZH_C20_BlockKinds() {
+	opts := DefaultExportOptions()
+	st := zzhParaStyles[zzvChoice(len(zzhParaStyles))]
+	p := &document.Paragraph{Runs: []document.Run{zzhRun(zzhRunSpec{text: "txt"})}, Properties: &document.ParagraphProperties{}}
+	if st != "" {
+		p.Properties.ParagraphStyle = &document.ParagraphStyle{Val: st}
+	}
+	numbered := zzvBool()
+	if numbered {
+		p.Properties.NumberingProperties = &document.NumberingProperties{NumID: &document.NumID{Val: "1"}, ILevel: &document.ILevel{Val: "0"}}
+	}
+	got := zzhExport(opts, []interface{}{p})
+	switch st {
+	case "Heading1":
+		zzvAssert(got == "# txt\n\n", "kinds: a heading is exported as a heading of its level")
+	case "Heading2":
+		zzvAssert(got == "## txt\n\n", "kinds: a heading is exported as a heading of its level")
+	case "Heading7":
+		zzvAssert(got == "###### txt\n\n", "kinds: a heading is exported as a heading of its level")
+	case "Quote":
+		zzvAssert(got == "> txt\n\n", "kinds: a quote is exported as a quote")
+	case "CodeBlock":
+		zzvAssert(got == "```\ntxt\n```\n\n", "kinds: code is exported as a fenced block")
+	default:
+		if numbered {
+			zzvAssert(got == "- txt\n", "kinds: an unstyled numbered paragraph is exported as a list item")
+		} else {
+			zzvAssert(got == "txt\n\n", "kinds: a plain paragraph is exported as a paragraph")
+		}
+	}
+	zzvReach("kinds")
 }
